@@ -1,6 +1,7 @@
 package main
 
 import (
+	"golang.org/x/tools/go/types/typeutil"
 	"fmt"
 	"go/ast"
 	"go/token"
@@ -128,19 +129,29 @@ func whoMayCall(w *World, r *Report, rule, label string, pred func(*types.Func) 
 	got := map[string]bool{}
 	var bad []string
 	pos := "-"
+	helpers := w.privateHelpersOf(want)
 	for _, s := range sites {
 		got[s.fn] = true
 		pos = w.pos(s.call.Pos())
-		if !want[s.fn] {
+		if !want[s.fn] && helpers[s.fn] == "" {
 			bad = append(bad, s.fn+" at "+w.pos(s.call.Pos()))
 		}
-		if needDeferred && !s.deferd {
+		if needDeferred && !s.deferd && helpers[s.fn] == "" {
 			bad = append(bad, s.fn+" (not in a deferred closure) at "+w.pos(s.call.Pos()))
 		}
 	}
 	for f := range want {
 		if !got[f] {
-			bad = append(bad, "expected caller "+f+" no longer calls it")
+			// reached through a private helper of f?
+			via := false
+			for h, owner := range helpers {
+				if got[h] && strings.Contains(owner, f) {
+					via = true
+				}
+			}
+			if !via {
+				bad = append(bad, "expected caller "+f+" no longer calls it")
+			}
 		}
 	}
 	sort.Strings(bad)
@@ -196,7 +207,7 @@ func whoMayWrite(w *World, r *Report, rule string, fields map[string]map[string]
 		var ws []string
 		for wr, p := range writers[f] {
 			ws = append(ws, wr)
-			if !fields[f][wr] {
+			if !fields[f][wr] && w.privateHelpersOf(fields[f])[wr] == "" {
 				bad = append(bad, wr+" at "+w.pos(p))
 				pos = w.pos(p)
 			}
@@ -389,6 +400,15 @@ func addR73(w *World, r *Report, rule string) {
 		kld, kbase, kok := loadOfField(mu.Key, "count")
 		if mok && kok && mbase == recv && kbase == recv && mu.Value == newCall && instrBefore(kld, countStore) {
 			okLk = true
+		}
+		// or the key is read back from the new node's own Index field, which (above) holds the pre-increment count
+		// and is stored exactly once
+		if !okLk && mok && mbase == recv && mu.Value == newCall && okIdx {
+			if ld, base, ok := loadOfField(mu.Key, "Index"); ok && base == newCall {
+				if idxStore := stores["Call.Index"][0]; instrBefore(idxStore, ld) {
+					okLk = true
+				}
+			}
 		}
 	}
 	check("lookup-registers-new-node-under-its-index", okLk, "lookup[count before increment] = the new node", "the lookup table does not map the new node's index to the new node")
@@ -690,4 +710,89 @@ func addR75(w *World, r *Report, rule string) {
 		}
 	}
 	r.need(rule, 2)
+}
+
+
+// privateHelpersOf: unexported fork functions all of whose call sites lie in functions of the given set
+// (or in other such helpers): code factored out of a reviewed function is still that function's code.
+// Returns helper name -> the reviewed functions it (transitively) serves.
+func (w *World) privateHelpersOf(set map[string]bool) map[string]string {
+	key := ""
+	{
+		var ks []string
+		for k := range set {
+			ks = append(ks, k)
+		}
+		sort.Strings(ks)
+		key = strings.Join(ks, "|")
+	}
+	if w.helperMemo == nil {
+		w.helperMemo = map[string]map[string]string{}
+	}
+	if m, ok := w.helperMemo[key]; ok {
+		return m
+	}
+	// all unexported fork functions with their callers
+	type fnInfo struct {
+		obj     *types.Func
+		name    string
+		callers map[string]bool
+	}
+	var cands []*fnInfo
+	for path, p := range w.Pkgs {
+		if !strings.HasPrefix(path, forkMod) {
+			continue
+		}
+		for _, f := range p.Syntax {
+			for _, d := range f.Decls {
+				fd, ok := d.(*ast.FuncDecl)
+				if !ok || fd.Body == nil || fd.Name.IsExported() {
+					continue
+				}
+				if fo, ok := p.TypesInfo.Defs[fd.Name].(*types.Func); ok {
+					cands = append(cands, &fnInfo{obj: fo, name: pkgShortOf(path) + "." + declRelName(fd)})
+				}
+			}
+		}
+	}
+	byObj := map[*types.Func]*fnInfo{}
+	for _, c := range cands {
+		byObj[c.obj] = c
+		c.callers = map[string]bool{}
+	}
+	for _, cs := range w.callSitesOf(func(f *types.Func) bool { return byObj[f] != nil }) {
+		if fo, ok := typeutil.Callee(cs.pkg.TypesInfo, cs.call).(*types.Func); ok {
+			if c := byObj[fo]; c != nil {
+				c.callers[cs.fn] = true
+			}
+		}
+	}
+	out := map[string]string{}
+	for changed := true; changed; {
+		changed = false
+		for _, c := range cands {
+			if out[c.name] != "" || set[c.name] || len(c.callers) == 0 {
+				continue
+			}
+			ok := true
+			var owners []string
+			for cl := range c.callers {
+				switch {
+				case set[cl]:
+					owners = append(owners, cl)
+				case out[cl] != "":
+					owners = append(owners, out[cl])
+				default:
+					ok = false
+				}
+			}
+			if ok {
+				sort.Strings(owners)
+				out[c.name] = strings.Join(owners, ",")
+				changed = true
+			}
+		}
+	}
+	w.helperMemo[key] = out
+	return out
 }
